@@ -62,6 +62,15 @@ var skelTargets = []skelTarget{
 	{"proxy_modifyResponse", "C20", "cmd/templ/generatecmd/proxy/proxy.go", "Handler", "modifyResponse"},
 	{"proxy_parseNonce", "C20", "cmd/templ/generatecmd/proxy/proxy.go", "", "parseNonce"},
 	{"proxy_insertScript", "C20", "cmd/templ/generatecmd/proxy/proxy.go", "", "insertScriptTagIntoBody"},
+	{"gen_writeChildrenExpression", "C13", "generator/generator.go", "generator", "writeChildrenExpression"},
+	{"gen_writeTemplElementExpression", "C13", "generator/generator.go", "generator", "writeTemplElementExpression"},
+	{"gen_writeBlockTemplElementExpression", "C13", "generator/generator.go", "generator", "writeBlockTemplElementExpression"},
+	{"gen_writeCallTemplateExpression", "C13", "generator/generator.go", "generator", "writeCallTemplateExpression"},
+	{"rt_WithChildren", "C13", "runtime.go", "", "WithChildren"},
+	{"rt_ClearChildren", "C13", "runtime.go", "", "ClearChildren"},
+	{"rt_GetChildren", "C13", "runtime.go", "", "GetChildren"},
+	{"flush_Render", "C13", "flush.go", "FlushComponent", "Render"},
+	{"join_Join", "C13", "join.go", "", "Join"},
 	{"script_jsonEncodeParam", "C03", "scripttemplate.go", "", "jsonEncodeParam"},
 	{"scriptel_scriptContent", "C03", "runtime/scriptelement.go", "", "scriptContent"},
 }
@@ -197,6 +206,67 @@ func skeletonOf(fset *token.FileSet, fd *ast.FuncDecl) string {
 	return b.String()
 }
 
+// skelAuto: every function of a file that matches (receiver, name prefix) gets a pin for the listed properties.
+type skelAuto struct {
+	idPrefix, props, file, recv, namePrefix string
+}
+
+var skelAutos = []skelAuto{
+	{"gen_", "C02", "generator/generator.go", "generator", "write"},                       // the statements the generator emits (model: Gen)
+	{"rw_", "C07", "generator/rangewriter.go", "RangeWriter", ""},                          // position tracking (model: Pos.advance)
+	{"sm_", "C07", "parser/v2/sourcemap.go", "SourceMap", ""},                              // the tables (model: SourceMap)
+	{"goexpr_", "C06", "parser/v2/goexpression/parse.go", "-", ""},                         // expression extents (ranges)
+	{"fmt_", "C08,C09", "parser/v2/types.go", "*", "Write"},                                // the formatter's writers (model: Printer, fragment)
+}
+
+func expandAutos() ([]skelTarget, error) {
+	var out []skelTarget
+	for _, a := range skelAutos {
+		_, f, err := parseFile(a.file)
+		if err != nil {
+			return nil, err
+		}
+		for _, d := range f.Decls {
+			fd, ok := d.(*ast.FuncDecl)
+			if !ok || fd.Body == nil || !strings.HasPrefix(fd.Name.Name, a.namePrefix) {
+				continue
+			}
+			recv := ""
+			if fd.Recv != nil && len(fd.Recv.List) > 0 {
+				t := fd.Recv.List[0].Type
+				if st, ok := t.(*ast.StarExpr); ok {
+					t = st.X
+				}
+				if id, ok := t.(*ast.Ident); ok {
+					recv = id.Name
+				}
+			}
+			switch a.recv {
+			case "-":
+				if recv != "" {
+					continue
+				}
+			case "*":
+				if recv == "" || fd.Name.Name != a.namePrefix {
+					continue
+				}
+			default:
+				if recv != a.recv {
+					continue
+				}
+			}
+			id := a.idPrefix + fd.Name.Name
+			if a.recv == "*" {
+				id = a.idPrefix + recv
+			}
+			for _, p := range strings.Split(a.props, ",") {
+				out = append(out, skelTarget{id, p, a.file, recv, fd.Name.Name})
+			}
+		}
+	}
+	return out, nil
+}
+
 func genSkeletons() (string, error) {
 	type parsed struct {
 		fset *token.FileSet
@@ -207,8 +277,28 @@ func genSkeletons() (string, error) {
 		"-- The skeleton of a function is its control structure and the calls it makes, in source order (extract/skeleton.go).\n" +
 		"namespace TemplVerif.Generated\n\n"
 	ts := append([]skelTarget{}, skelTargets...)
+	autos, err := expandAutos()
+	if err != nil {
+		return "", err
+	}
+	ts = append(ts, autos...)
 	sort.SliceStable(ts, func(i, j int) bool { return ts[i].id < ts[j].id })
+	// the same function pinned for several properties: one definition, all properties listed
+	propsOf := map[string]string{}
 	for _, t := range ts {
+		if propsOf[t.id] == "" {
+			propsOf[t.id] = t.prop
+		} else if !strings.Contains(propsOf[t.id], t.prop) {
+			propsOf[t.id] += "," + t.prop
+		}
+	}
+	done := map[string]bool{}
+	for _, t := range ts {
+		if done[t.id] {
+			continue
+		}
+		done[t.id] = true
+		t.prop = propsOf[t.id]
 		p, ok := files[t.file]
 		if !ok {
 			fset, f, err := parseFile(t.file)
